@@ -1,5 +1,6 @@
 import IpaVerif.Model.Util
 import IpaVerif.Model.Serde
+import IpaVerif.Model.Ristretto
 import IpaVerif.Generated.PrimeFields
 import IpaVerif.Generated.C09Serde
 /-!
@@ -78,9 +79,19 @@ def serde (op : String) (t : Ty) (args : List String) : Option String :=
       if rest.isEmpty then pure (bytesHex ((codecOf t).enc v)) else none
   | _, _ => none
 
+/-- `RP25519::deserialize` + re-serialize, with dalek's `decompress` replaced by the RFC 9496 reference;
+the re-encoding of an accepted string is the string itself (`rp25519_lawful`). -/
+def rp (op : String) (args : List String) : Option String :=
+  match op, args with
+  | "de", [h] => do
+      let bs ← parseHexBytes h
+      pure (if IpaVerif.Ristretto.valid bs then s!"ok {bytesHex bs}" else "err")
+  | _, _ => none
+
 /-- `some response` if the request belongs to this property, else `none`. -/
 def handle (toks : List String) : Option String :=
   match toks with
+  | "c09.rp" :: op :: args => some ((rp op args).getD "bad-request")
   | op :: ty :: args =>
     if op == "c09.blk" || op == "c09.de" || op == "c09.en" then
       match parseTy ty with
@@ -151,6 +162,12 @@ def serdeOracle (op : String) (t : Ty) (args : List String) (impl : String) : Op
 /-- Property oracle on (request, implementation response): `some "holds"`, `some "fails <why>"`, or `none`. -/
 def oracle (toks : List String) (impl : String) : Option String :=
   match toks with
+  | ["c09.rp", "de", h] =>
+      -- accepted ⇒ the re-encoding is the input (only canonical encodings are accepted); whether a
+      -- rejected string is really non-canonical is dalek's business (hypothesis) — the model above
+      -- cross-checks it against RFC 9496
+      if impl == "err" then some "unknown"
+      else verdict (impl == s!"ok {h}") "an accepted point encoding must re-encode to itself"
   | op :: ty :: args =>
     if op == "c09.blk" || op == "c09.de" || op == "c09.en" then
       match parseTy ty with
